@@ -167,7 +167,14 @@ async fn run_history(cfg: &HistCfg) -> HistOut {
     {
         let echo = echo.clone();
         let cancelled = cancelled.clone();
-        settle(&log, Duration::from_millis(60), Duration::from_secs(20), move || echo.held_count() + cancelled.lock().unwrap().len() >= target).await;
+        let t = std::time::Instant::now();
+        let (e2, c2) = (echo.clone(), cancelled.clone());
+        // (arrived at the node, or already back at the caller: abandoned, or failed at once)
+        let res = results.clone();
+        settle(&log, Duration::from_millis(60), Duration::from_secs(20), move || echo.held_count() + cancelled.lock().unwrap().len().max(res.lock().unwrap().len()) >= target).await;
+        if std::env::var("C02_DEBUG").is_ok() && t.elapsed() > Duration::from_secs(5) {
+            eprintln!("      phase1 slow: held {} cancelled {} target {} results {}", e2.held_count(), c2.lock().unwrap().len(), target, results.lock().unwrap().len());
+        }
     }
     let mut held = echo.take_held();
     // Framing-desync probe (some histories): the answer to X carries, appended to its payload, a complete
@@ -199,17 +206,16 @@ async fn run_history(cfg: &HistCfg) -> HistOut {
                 let cut = frame.len() - embedded.len();
                 conn.outstanding.lock().unwrap().remove(&x_stream);
                 log.push(crate::mock::log::Ev::Send { node: 0, conn: conn.id, stream: x_stream, opcode: 0x08, bytes: frame.len(), written: frame.len(), tag: Some(x_id) });
-                conn.send_raw(frame[..cut].to_vec());
+                // (written by the connection's writer task in one go: a keep-alive answer must not land between the halves)
+                conn.send_raw_split(frame[..cut].to_vec(), 6, frame[cut..].to_vec());
                 tokio::time::sleep(Duration::from_millis(2)).await;
-                // abandon some other in-flight requests right now
+                // abandon some other in-flight requests right now, between the two segments
                 for i in live.iter().skip(2).take(6) {
                     if let Some(h) = op_handles.lock().unwrap().get(&held[*i].0) {
                         h.abort();
                     }
                 }
-                tokio::time::sleep(Duration::from_millis(3)).await;
-                conn.send_raw(frame[cut..].to_vec());
-                tokio::time::sleep(Duration::from_millis(2)).await;
+                tokio::time::sleep(Duration::from_millis(8)).await;
                 // X has been answered by hand
                 held.remove(xi);
                 log.push(crate::mock::log::Ev::Note("desync-probe-sent".into()));
@@ -238,7 +244,14 @@ async fn run_history(cfg: &HistCfg) -> HistOut {
         let n2 = cfg.n2;
         let cancelled = cancelled.clone();
         let base = cancelled.lock().unwrap().len();
-        settle(&log, Duration::from_millis(60), Duration::from_secs(20), move || echo.held_count() + cancelled.lock().unwrap().len().saturating_sub(base) >= n2).await;
+        let t = std::time::Instant::now();
+        let (e2, c2) = (echo.clone(), cancelled.clone());
+        let res = results.clone();
+        let rbase = res.lock().unwrap().len();
+        settle(&log, Duration::from_millis(60), Duration::from_secs(20), move || echo.held_count() + cancelled.lock().unwrap().len().saturating_sub(base).max(res.lock().unwrap().len().saturating_sub(rbase)) >= n2).await;
+        if std::env::var("C02_DEBUG").is_ok() && t.elapsed() > Duration::from_secs(5) {
+            eprintln!("      phase2 slow: held {} cancelled {} base {} n2 {} results {}", e2.held_count(), c2.lock().unwrap().len(), base, n2, results.lock().unwrap().len());
+        }
     }
     let second = echo.take_held();
     answer_all(second, Order::Random, &mut rng).await;
@@ -439,7 +452,7 @@ pub fn run_b(ctx: &Ctx) -> Outcome {
         }
         return out;
     }
-    let n_hist = ctx.vol(300, 6000);
+    let n_hist = ctx.vol(600, 12000);
     let mut rng = ctx.rng(202);
     // Perturbation at the router's existing suspension points (hook H3): slows the writer so the
     // submit queue backs up (cancel-before-write becomes reachable) and delays the reader so
@@ -476,7 +489,11 @@ pub fn run_b(ctx: &Ctx) -> Outcome {
             let mut js = Vec::new();
             for c in cfgs {
                 js.push(tokio::spawn(async move {
+                    let t = std::time::Instant::now();
                     let h = run_history(&c).await;
+                    if std::env::var("C02_DEBUG").is_ok() {
+                        eprintln!("{:>7} ms n1={} n2={} cancel={} withhold={} comp={} ka={} desync={} order={:?}", t.elapsed().as_millis(), c.n1, c.n2, c.cancel_pm, c.withhold_pm, c.compression, c.keepalive, c.desync_probe, c.order);
+                    }
                     (c, h)
                 }));
             }
